@@ -56,4 +56,5 @@ registry! {
     c32::C32,
     c33::C33,
     c34::C34,
+    c36::C36,
 }
